@@ -2,6 +2,7 @@ mod common;
 mod corpus;
 mod e1;
 mod e2;
+mod e2d;
 mod e2x;
 mod e3;
 mod e4;
@@ -59,7 +60,7 @@ fn main() {
                         }
                     }
                     "C09" | "C10" | "C16" => e1::replay_cmd(&ctx, &id, &file),
-                    "C01" | "C02" | "C03" | "C04" | "C11" | "C12" => e2::replay_cmd(&ctx, &id, &file),
+                    "C01" | "C02" | "C03" | "C04" | "C11" | "C12" | "C15" => e2::replay_cmd(&ctx, &id, &file),
                     "C06" | "C17" => e3::replay_cmd(&ctx, &id, &file),
                     _ => inconclusive("replay not implemented for this property"),
                 }
@@ -76,6 +77,7 @@ fn main() {
                 "C04" => e2x::c04(&ctx),
                 "C11" => e2x::c11(&ctx),
                 "C12" => e2::c12(&ctx),
+                "C15" => e2d::c15(&ctx),
                 "C06" => e3::c06(&ctx),
                 "C17" => e3::c17(&ctx),
                 "C08" => e4::c08(&ctx),
